@@ -114,13 +114,26 @@ func cmdExplore(args []string) int {
 	out := fs.String("out", "", "report")
 	seed := fs.Int64("seed", 1, "seed")
 	n := fs.Int("n", 2000, "number of inputs")
+	one := fs.String("hex", "", "replay: run the calls on this one input (hex bytes) instead of generated ones")
 	fs.Parse(args)
+	var fixed []byte
+	if *one != "" {
+		var err error
+		if fixed, err = hex.DecodeString(*one); err != nil {
+			fmt.Println("explore: -hex:", err)
+			return 2
+		}
+		*n = 1
+	}
 	rng := rand.New(rand.NewSource(*seed))
 	rep := exploreReport{PerFamily: map[string]int{}}
 	groups := c20.NewGroups(3)
 	strategies := []string{"recursive", "code", "markdown", "fixed", "chunker"}
 	for k := 0; k < *n; k++ {
 		s, fam := genInput(rng, k)
+		if *one != "" {
+			s, fam = string(fixed), "replay"
+		}
 		rep.Inputs++
 		rep.PerFamily[fam]++
 		if !utf8.ValidString(s) {
